@@ -116,6 +116,9 @@ func GenTar(d Draw, seed uint64, o GenOpts) *TarSpec {
 		if d(4) == 0 {
 			base += fmt.Sprint(d(3))
 		}
+		if o.OddNames && i%5 == 4 {
+			base = strings.Repeat(base+"_", 120/(len(base)+1)+1) // beyond the 100 bytes of a ustar name field
+		}
 		name := path.Join(parent, base)
 		// sometimes create the entry below a directory that has no entry of its own (implicit parent)
 		if d(6) == 0 {
@@ -141,6 +144,19 @@ func GenTar(d Draw, seed uint64, o GenOpts) *TarSpec {
 			if d(3) == 0 {
 				e.Xattrs["security.capability"] = "\x01\x00\x00\x02"
 			}
+			if o.OddNames {
+				e.Xattrs["user.empty"] = ""
+				e.Xattrs["user.bin"] = "\x00\xff\n="
+			}
+		}
+		if o.OddNames {
+			// odd metadata too: ids beyond 2^31, the epoch and far-future times
+			switch (e.MTime / 3600) % 6 {
+			case 0:
+				e.UID, e.GID = 2147483653, 4294967294
+			case 1:
+				e.MTime = []int64{0, 1, 1 << 33, 253402300799}[(e.MTime/3600/6)%4]
+			}
 		}
 		switch k := d(12); {
 		case k < 3:
@@ -153,6 +169,9 @@ func GenTar(d Draw, seed uint64, o GenOpts) *TarSpec {
 		case k == 8:
 			e.Type = tar.TypeSymlink
 			e.Link = []string{"a", "../b", "/etc/passwd", "x.txt"}[d(4)]
+			if o.OddNames && i%2 == 1 {
+				e.Link = strings.Repeat("t/", 80) + e.Link // beyond the 100 bytes of a ustar link field
+			}
 			e.Mode = 0777
 		case k == 9 && len(regs) > 0:
 			e.Type = tar.TypeLink
